@@ -12,7 +12,8 @@ TEXT = ('StaticSound::process and StreamingSound::process are compared phase by 
         'while >= 1.0 { -= 1.0; step }); the same output expression. Whitelisted, documented differences: abs() vs max(0.0), '
         'resampler vs ring buffer, streaming\'s error/starvation/end gates. read_commands and on_start_processing siblings '
         'agree on order. Equality of produced frames is not decided.'
-        ' The transport is moved only by the seek methods, which are entered only from command reading (who-may-call).')
+        ' The transport is moved only by the seek methods, which are entered only from command reading (who-may-call).'
+        ' The decoder declares the end of the data once, after pushing the frame of the step, when the shared transport has stopped.')
 TECHNIQUE = 'MIR sibling-agreement (feature extraction + comparison) rules'
 
 ST = 'sound::static_sound::sound::StaticSound'
@@ -169,6 +170,7 @@ def run(ctx, R, tier):
 
     frame_source(F, R)
     seek_callers(F, R)
+    end_rule(F, R)
     # read_commands siblings
     def reader_fn(owner):
         ob_ = F.body('<%s as sound::Sound>::on_start_processing' % owner)
@@ -220,6 +222,31 @@ def shape(d):
     m = re.match(r'frame::Frame::panned\(<frame::Frame as std::ops::Mul<f32>>::mul\(<frame::Frame as std::ops::Mul<f32>>::mul\((.*)\)$', d)
     ops = re.findall(r'frame::Frame::panned|Mul<f32>>::mul|as_amplitude|interpolated_fade_volume|interpolated_value', d)
     return ops
+
+
+def end_rule(F, R):
+    """A streaming sound ends where the static sound ends: the decoder declares the end of the data (`reached_end`) only when
+    the shared Transport logic has stopped playing (the same `increment_position` the static sound uses) and after the frame
+    of that step has been pushed -- never on a position test of its own, which would end the sound a frame earlier or later
+    than the static sound for start positions at or past the end."""
+    DS = 'sound::streaming::sound::decode_scheduler::DecodeScheduler::<Error>'
+    b = F.inlined_view(DS + '::run', depth=1, pred=lambda hp: hp.startswith(DS + '::') and not hp.endswith(('::frame_at_index', '::seek_to', '::seek_by', '::seek_to_index')))
+    if not R.check(b is not None, 'B.C09.end', 'anchor', 'DecodeScheduler::run not found'):
+        return
+    stores = [x for x, t in b.calls() if (callee_path(t) or '').endswith('::store') and 'reached_end' in describe(b, t['args'][0], depth=6)]
+    pushes = [x for x, t in b.calls() if (callee_path(t) or '').endswith('rtrb::Producer::<T>::push')]
+    ok = len(stores) == 1 and len(pushes) == 1 and b.dominates(pushes[0], stores[0])
+    gate = False
+    if ok:
+        for g in range(b.n):
+            t = b.blocks[g]['term']
+            if t['k'] == 'switch' and b.dominates(g, stores[0]) and describe(b, t['op'], depth=3, at=g).endswith('transport.playing'):
+                f = dict(t['targets']).get('0')
+                gate = f is not None and b.dominates(f, stores[0])
+    R.check(ok and gate, 'B.C09.end', 'reached_end',
+            'the decoder raises reached_end %d time(s) / not after pushing the frame of the step / not under `!transport.playing`: the '
+            'streaming sound would end at a different frame than a static sound of the same audio' % len(stores),
+            detail='push(frame) ≺ if !transport.playing { reached_end.store(true) }, once', where=b.file)
 
 
 def seek_callers(F, R):
